@@ -267,15 +267,20 @@ func keep(live []byte, tag string) evaluation {
 // a result that aliases storage reused by a later evaluation (a pooled buffer, a shared backing
 // array) is seen to change. Returns the first result and a description of any difference.
 func det(f func() ([]byte, string), disturb func()) (evaluation, string) {
+	return detN(f, disturb, 8, 8)
+}
+
+// detN: nseq sequential and nconc concurrent evaluations (det: 8 + 8)
+func detN(f func() ([]byte, string), disturb func(), nseq, nconc int) (evaluation, string) {
 	var rs []evaluation
-	for i := 0; i < 8; i++ {
+	for i := 0; i < nseq; i++ {
 		rs = append(rs, keep(f()))
 		if disturb != nil {
 			disturb()
 		}
 	}
 	var wg sync.WaitGroup
-	conc := make([]evaluation, 8)
+	conc := make([]evaluation, nconc)
 	for i := range conc {
 		wg.Add(1)
 		go func(i int) { defer wg.Done(); conc[i] = keep(f()) }(i)
@@ -292,7 +297,7 @@ func det(f func() ([]byte, string), disturb func()) (evaluation, string) {
 	first := rs[0]
 	for i, r := range rs {
 		how := "sequential"
-		if i >= 8 {
+		if i >= nseq {
 			how = "concurrent"
 		}
 		if r.tag != first.tag || !bytes.Equal(r.copy, first.copy) {
@@ -507,7 +512,10 @@ func exec(line string) (res h.Result) {
 			res.Impl = "panic parse"
 		default:
 			url := docURL(doc)
-			se, o3 := det(func() ([]byte, string) { return stageQuery(url, sel, addr) }, disturbQuery)
+			// through the stage (an HTTP fetch per evaluation): 4 + 4 evaluations – the 8 + 8 above are on
+			// dataParse itself, and the cq cases run genQueryResult from up to 16 goroutines at once. (Cost:
+			// the query cases were 3/4 of the run time and the part most sensitive to machine load.)
+			se, o3 := detN(func() ([]byte, string) { return stageQuery(url, sel, addr) }, disturbQuery, 4, 4)
 			res.Impl = se.String()
 			o = first(o, o3)
 			if got != "err" {
@@ -723,7 +731,7 @@ func gen(tier string, rng *h.Rng, emit func(string)) {
 		emit("strip " + h.Hex(rng.Bytes(l)))
 	}
 	// url queries
-	nq := 6000
+	nq := 4000
 	if thorough {
 		nq = 60000
 	}
